@@ -277,6 +277,11 @@ fn eval(op: &Op, rep: &mut Report) {
                     match want {
                         Some(w) if ns.as_bytes() == &w[..] => {}
                         Some(w) => o.viol("serde-roundtrip-mismatch", format!("{doc} decoded to {} instead of {}", hx(ns.as_bytes()), hx(&w))),
+                        // not the canonical padded-base64 form of a valid raw namespace: the
+                        // statement fixes which byte strings are namespaces, not which textual
+                        // encodings a deserializer may additionally understand (e.g. unpadded
+                        // base64) - whatever it accepts must be a valid namespace, though
+                        None if valid_raw(ns.as_bytes()) => o.case("serde_in:accept:non-canonical-encoding-of-valid-namespace", true),
                         None => o.viol("invalid-namespace-constructed", format!("serde accepted {doc} -> {}", hx(ns.as_bytes()))),
                     }
                 }
